@@ -36,4 +36,6 @@ func init() {
 	alias("C06", "R9", "C05", "R12", "re-running the last block on the recorded responses must yield the same next state as the live run (validator and consensus-parameter updates included)")
 	alias("C18", "R7", "C08", "R8", "the state store must produce the validator set of every retained height, also on a node that started from a snapshot: bootstrap stores the set in force at each height")
 	alias("C18", "R8", "C08", "R9", "after an operator rollback the state store must still produce the validator set of every retained height")
+	alias("C20", "R7", "C10", "R3", "a relayed tx or query value is only as good as the Merkle proof check behind it: a proof verifies only for a valid (index, total, path) shape")
+	alias("C20", "R8", "C06", "R1", "Block and BlockByHash tie the relayed block body to the verified header through Block.ValidateBasic: its content-hash checks must hold for every body, also an empty one")
 }
